@@ -169,7 +169,9 @@ def inStringGrammar (j : Json) : Bool := (violation false j).isNone
 /-! ## the regions in which the implementation is known to accept documents outside the grammar
 
 (stated here so that the refusal theorem can name them; each has a counterexample in
-`S3V/Findings/C20Policy.lean` and an open finding) -/
+`S3V/Findings/C20Policy.lean` and an open finding. Two further regions — a statement with more than one
+principal / action / resource block, and a principal block with a malformed value — were repaired in the
+code and are no longer excluded.) -/
 
 /-- `{"<name>": null}` where the grammar wants the string `"<name>"` -/
 def enumObjectForm : Json → Bool
@@ -177,20 +179,14 @@ def enumObjectForm : Json → Bool
   | _ => false
 
 def stmtQuirk : Json → Bool
-  | .obj ms =>
-    (valuesOf kEffect ms).any enumObjectForm ||
-    decide (2 ≤ (membersOf2 kPrincipal kNotPrincipal ms).length) ||
-    (membersOf2 kPrincipal kNotPrincipal ms).any (fun kv => !principalValueOk kv.2) ||
-    decide (2 ≤ (membersOf2 kAction kNotAction ms).length) ||
-    decide (2 ≤ (membersOf2 kResource kNotResource ms).length)
+  | .obj ms => (valuesOf kEffect ms).any enumObjectForm
   | _ => false
 
 def stmtsQuirk : Json → Bool
   | .arr items => items.any stmtQuirk
   | j => stmtQuirk j
 
-/-- the document is an array, or writes `Version`/`Effect` in object form, or some statement has
-    more than one principal / action / resource block or a malformed principal value -/
+/-- the document is an array, or writes `Version`/`Effect` in object form -/
 def quirk : Json → Bool
   | .arr _ => true
   | .obj ms => (valuesOf kVersion ms).any enumObjectForm || (valuesOf kStatement ms).any stmtsQuirk
@@ -209,11 +205,12 @@ def statementNodes : Json → List Json
   | .arr [_, _, v] => stmtItems v
   | _ => []
 
-/-- the statement is an object; `Sid`, `Effect`, `Condition` occur at most once; every `Sid` is a
-    string or null; there is an `Effect` and every `Effect` names `Allow` or `Deny` (as a string, or in
-    the object form of `enumObjectForm`); there is an action block and a resource block and the first
-    of each is a string or a list of strings; every `Condition` is null or a map of maps of strings /
-    lists of strings -/
+/-- the statement is an object; each of the six blocks occurs at most once (`Sid`, `Effect`, `Condition`
+    by name; the principal, the action and the resource block under either of their two names); every
+    `Sid` is a string or null; there is an `Effect` and every `Effect` names `Allow` or `Deny` (as a
+    string, or in the object form of `enumObjectForm`); there is an action block and a resource block and
+    each is a string or a list of strings; every `Condition` is null or a map of maps of strings / lists
+    of strings; every principal block is `"*"` or a map of strings / lists of strings -/
 def stmtMust : Json → Bool
   | .obj ms =>
     decide ((valuesOf kSid ms).length ≤ 1) && decide ((valuesOf kEffect ms).length ≤ 1) &&
@@ -227,7 +224,11 @@ def stmtMust : Json → Bool
     (match (membersOf2 kResource kNotResource ms).head? with
       | some kv => strOrStrs kv.2
       | none => false) &&
-    (valuesOf kCondition ms).all (fun v => (conditionValueViol false v).isNone)
+    (valuesOf kCondition ms).all (fun v => (conditionValueViol false v).isNone) &&
+    decide ((membersOf2 kPrincipal kNotPrincipal ms).length ≤ 1) &&
+    decide ((membersOf2 kAction kNotAction ms).length ≤ 1) &&
+    decide ((membersOf2 kResource kNotResource ms).length ≤ 1) &&
+    (membersOf2 kPrincipal kNotPrincipal ms).all (fun kv => principalValueOk kv.2)
   | _ => false
 
 /-- `Version`, `Id`, `Statement` occur at most once; every `Version`/`Id` of an object-form document is
